@@ -49,6 +49,7 @@ pub struct EngineState {
     pub base: Option<(Board, Pos)>,
     pub tasks: Vec<Task>,
     pub table: Option<(CacheTable<Val>, TableModel)>,
+    pub wide: Option<CacheTable<WideVal>>,
 }
 
 /// The stored value type. Like a real engine entry it compares by `depth` only (PartialEq / PartialOrd
@@ -77,11 +78,54 @@ impl PartialOrd for Val {
 fn ex(v: Val) -> (u8, u32) {
     (v.depth, v.stamp)
 }
+/// A second table runs in lock-step with the first and stores the same values as 32-byte entries (engines keep
+/// moves, bounds and evaluations in their entries; the compiler lays such an entry out differently from a small one -
+/// a payload whose size is a larger power of two than the key's is placed BEFORE the key).
+#[derive(Copy, Clone, Debug)]
+pub struct WideVal {
+    pub w: [u64; 4],
+}
+impl WideVal {
+    fn v(&self) -> Val {
+        Val { depth: (self.w[3] >> 32) as u8, stamp: self.w[3] as u32 }
+    }
+}
+impl PartialEq for WideVal {
+    fn eq(&self, o: &WideVal) -> bool {
+        self.v() == o.v()
+    }
+}
+impl PartialOrd for WideVal {
+    fn partial_cmp(&self, o: &WideVal) -> Option<std::cmp::Ordering> {
+        self.v().partial_cmp(&o.v())
+    }
+}
+fn pad_for(v: Val, key: u64) -> [u64; 3] {
+    // the first word looks like a key of the same slot, so that a table comparing the wrong word is fooled
+    let a = crate::rng::mix(&[v.stamp as u64, 0x51DE]);
+    [key ^ ((v.stamp as u64 & 0xFF) << 32), a, a ^ key]
+}
+fn widen(v: Val, key: u64) -> WideVal {
+    let p = pad_for(v, key);
+    WideVal { w: [p[0], p[1], p[2], (v.depth as u64) << 32 | v.stamp as u64] }
+}
+/// What the wide table's answer says in terms of the narrow value: a damaged entry becomes a value nothing expects.
+fn narrow(w: Option<WideVal>, key: u64) -> Option<Val> {
+    w.map(|w| {
+        let v = w.v();
+        if w.w[0..3] == pad_for(v, key) || (w.w[0..3] == [0; 3] && ex(v) == ex(TABLE_DEFAULT)) {
+            v
+        } else {
+            Val { depth: 254, stamp: 0xBAD0_0BAD }
+        }
+    })
+}
+pub const WIDE_DEFAULT: WideVal = WideVal { w: [0, 0, 0, (TABLE_DEFAULT.depth as u64) << 32 | TABLE_DEFAULT.stamp as u64] };
 pub const TABLE_DEFAULT: Val = Val { depth: 0, stamp: 0xDEFA };
 
 impl EngineState {
     pub fn new() -> EngineState {
-        EngineState { base: None, tasks: vec![], table: None }
+        EngineState { base: None, tasks: vec![], table: None, wide: None }
     }
     /// The client's replica changed: every task restarts from it. The table survives (it is keyed by hash).
     pub fn reset(&mut self, b: Board, p: Pos) {
@@ -133,6 +177,7 @@ impl Exec {
             EOp::LibWalk { picks } => return self.lib_walk(top_b, picks),
             EOp::LibTree => return self.lib_tree(top_b),
             EOp::Edit { sq, kind } => return self.engine_edit(c, t, top_b, top_p, depth, *sq, *kind),
+            EOp::Rights { code } => return self.engine_rights(c, t, top_b, top_p, depth, *code),
             EOp::TableGetHere { alias } => return self.table_get(c, top_b.get_hash() ^ (*alias)),
             _ => {}
         }
@@ -428,6 +473,7 @@ impl Exec {
                 task.gen = None;
             }
             self.stats.cnt("reach.null_move_made");
+            self.setter_sibling(&top_b, &top_p, &nb, &q)?;
             self.monitor_position(&nb, &q, "null_move", None)?;
         }
         Ok(Flow::Go)
@@ -579,6 +625,95 @@ impl Exec {
             }
         };
         self.stats.cnt("reach.position_obtained_by_setter");
+        self.setter_sibling(&top_b, &top_p, &nb, &q)?;
+        {
+            let task = self.eng[c].task(t).unwrap();
+            task.stack.push((nb, q.clone()));
+            task.gen = None;
+        }
+        self.monitor_position(&nb, &q, "setter", None)?;
+        Ok(Flow::Go)
+    }
+
+    /// The board before and the board after a setter call are a sibling pair: if they show different positions
+    /// they must hash differently (C09) and must not compare equal (C08).
+    fn setter_sibling(&mut self, before: &Board, bp: &Pos, after: &Board, ap: &Pos) -> Result<(), Violation> {
+        if bp.key_beside() == ap.key_beside() {
+            return Ok(());
+        }
+        if self.on(9) {
+            self.stats.evals += 1;
+            self.stats.cnt("sibling.setter");
+            if before.get_hash() == after.get_hash() {
+                return Err(viol(
+                    "C09",
+                    "sibling/same_hash/setter",
+                    format!("{} edited into {} with the setters: both hash to {:016x}", bp.fen(), ap.fen(), after.get_hash()),
+                ));
+            }
+        }
+        if self.on(8) && before == after {
+            return Err(viol("C08", "eq/different_positions_compare_equal/setter", format!("{} edited into {} with the setters: the boards compare ==", bp.fen(), ap.fen())));
+        }
+        Ok(())
+    }
+
+    /// The deprecated castle-right setters (absolute colour, or "my" / "their").
+    #[allow(deprecated)]
+    fn engine_rights(&mut self, c: usize, t: usize, top_b: Board, top_p: Pos, depth: usize, code: u8) -> Result<Flow, Violation> {
+        if !(self.on(1) || self.on(3) || self.on(4) || self.on(8) || self.on(9) || self.on(18)) || depth >= 8 {
+            return Ok(Flow::Go);
+        }
+        if top_p.ep.is_some() || top_b.en_passant().is_some() {
+            return Ok(Flow::Go);
+        }
+        let add = code & 1 == 1;
+        let which = (code >> 1) & 3;
+        let col = if (code >> 3) & 1 == 0 { Col::W } else { Col::B };
+        let rel = (code >> 4) & 1 == 1;
+        let (ki, qi) = if col == Col::W { (crate::model::WK, crate::model::WQ) } else { (crate::model::BK, crate::model::BQ) };
+        let mut q = top_p.clone();
+        if which != 1 {
+            q.castle[ki] = add;
+        }
+        if which != 0 {
+            q.castle[qi] = add;
+        }
+        if q.strict_validity_error().is_some() {
+            return Ok(Flow::Go);
+        }
+        let cr = match which {
+            0 => chess::CastleRights::KingSide,
+            1 => chess::CastleRights::QueenSide,
+            _ => chess::CastleRights::Both,
+        };
+        let r = guard(|| {
+            let mut b = top_b;
+            let mine = col == top_p.stm;
+            match (rel, add, mine) {
+                (false, true, _) => b.add_castle_rights(lib_col(col), cr),
+                (false, false, _) => b.remove_castle_rights(lib_col(col), cr),
+                (true, true, true) => b.add_my_castle_rights(cr),
+                (true, true, false) => b.add_their_castle_rights(cr),
+                (true, false, true) => b.remove_my_castle_rights(cr),
+                (true, false, false) => b.remove_their_castle_rights(cr),
+            }
+            b
+        });
+        let nb = match r {
+            Ok(b) => b,
+            Err(e) => {
+                if self.on(3) {
+                    return Err(viol("C03", "setter/panic", format!("{} changing castle rights (code {}) in {}", e, code, top_p.fen())));
+                }
+                return Ok(Flow::ForeignDivergence(format!("panic in a castle-right setter: {}", e)));
+            }
+        };
+        self.stats.cnt("reach.position_obtained_by_rights_setter");
+        if q == top_p {
+            self.stats.cnt("reach.setter_no_op_edit");
+        }
+        self.setter_sibling(&top_b, &top_p, &nb, &q)?;
         {
             let task = self.eng[c].task(t).unwrap();
             task.stack.push((nb, q.clone()));
@@ -621,6 +756,19 @@ impl Exec {
                 }
                 self.stats.cnt("fault.E-SIZE");
                 self.eng[c].table = Some((tb, TableModel { size, slots: vec![(0, TABLE_DEFAULT); size as usize] }));
+                self.eng[c].wide = if size <= (1 << 16) {
+                    match guard(|| CacheTable::<WideVal>::new(size as usize, WIDE_DEFAULT)) {
+                        Ok(t) => Some(t),
+                        Err(p) => {
+                            if self.on(19) {
+                                return Err(viol("C19", "new/panicked_on_power_of_two/wide_value", format!("CacheTable::new({}) panicked: {}", size, p)));
+                            }
+                            None
+                        }
+                    }
+                } else {
+                    None
+                };
             }
             Err(p) => {
                 if valid {
@@ -647,10 +795,25 @@ impl Exec {
 
     fn table_get(&mut self, c: usize, key: u64) -> Result<Flow, Violation> {
         let armed = self.on(19);
+        let wide_got = self.eng[c].wide.as_ref().map(|tw| narrow(tw.get(key), key));
         if let Some((tb, tm)) = self.eng[c].table.as_ref() {
             let got = tb.get(key);
             let slot = tm.slots[(key % tm.size) as usize];
             let want = if slot.0 == key { Some(slot.1) } else { None };
+            if let (true, Some(wg)) = (armed, wide_got) {
+                if wg.map(ex) != want.map(ex) {
+                    let sig = match (wg, want) {
+                        (Some(_), None) => "get/hit_under_other_hash/wide_value",
+                        (None, Some(_)) => "get/miss_on_stored_hash/wide_value",
+                        _ => "get/wrong_value/wide_value",
+                    };
+                    return Err(viol(
+                        "C19",
+                        sig,
+                        format!("size {} (32-byte values): get({:016x}) = {:?}, slot holds ({:016x}, {:?}) so expected {:?}", tm.size, key, wg, slot.0, slot.1, want),
+                    ));
+                }
+            }
             let st = Self::slot_state(tm, key);
             let size = tm.size;
             if armed {
@@ -682,7 +845,9 @@ impl Exec {
         self.stamp += 1;
         let mut v = Val { depth: (self.stamp % 3) as u8, stamp: self.stamp };
         let armed = self.on(19);
-        if let Some((tb, tm)) = self.eng[c].table.as_mut() {
+        let es = &mut self.eng[c];
+        let wide = &mut es.wide;
+        if let Some((tb, tm)) = es.table.as_mut() {
             let st = Self::slot_state(tm, key);
             let cur = tm.slots[(key % tm.size) as usize].1;
             match val {
@@ -703,6 +868,15 @@ impl Exec {
                 _ => {}
             }
             tb.add(key, v);
+            if let Some(tw) = wide.as_mut() {
+                tw.add(key, widen(v, key));
+                if armed {
+                    let got = narrow(tw.get(key), key);
+                    if got.map(ex) != Some(ex(v)) {
+                        return Err(viol("C19", "add/not_readable_afterwards/wide_value", format!("(32-byte values) add({:016x}, {:?}) then get = {:?}", key, v, got)));
+                    }
+                }
+            }
             let idx = (key % tm.size) as usize;
             if st == 2 {
                 self.stats.cnt("reach.table_eviction");
@@ -727,7 +901,9 @@ impl Exec {
         self.stamp += 1;
         let mut v = Val { depth: (self.stamp % 3) as u8, stamp: self.stamp };
         let armed = self.on(19);
-        if let Some((tb, tm)) = self.eng[c].table.as_mut() {
+        let es = &mut self.eng[c];
+        let wide = &mut es.wide;
+        if let Some((tb, tm)) = es.table.as_mut() {
             let idx = (key % tm.size) as usize;
             let cur = tm.slots[idx];
             match val {
@@ -776,6 +952,40 @@ impl Exec {
             if decision {
                 tm.slots[idx] = (key, v);
             }
+            if let Some(tw) = wide.as_mut() {
+                let wseen: Cell<Option<(u8, u32)>> = Cell::new(None);
+                let wf = |old: WideVal| -> bool {
+                    wseen.set(Some(ex(old.v())));
+                    if pred == 5 {
+                        panic!("predicate gives up");
+                    }
+                    decide(old.v())
+                };
+                if pred == 5 {
+                    let _ = guard(|| tw.replace_if(key, widen(v, key), wf));
+                } else {
+                    tw.replace_if(key, widen(v, key), wf);
+                }
+                if armed {
+                    if wseen.get().is_some() && wseen.get() != Some(ex(cur.1)) {
+                        return Err(viol(
+                            "C19",
+                            "replace_if/predicate_saw_wrong_value/wide_value",
+                            format!("(32-byte values) predicate saw {:?}, slot held {:?}", wseen.get(), cur.1),
+                        ));
+                    }
+                    let got = narrow(tw.get(key), key);
+                    let slot = tm.slots[idx];
+                    let want = if slot.0 == key { Some(slot.1) } else { None };
+                    if got.map(ex) != want.map(ex) {
+                        return Err(viol(
+                            "C19",
+                            if decision { "replace_if/not_replaced_when_predicate_true/wide_value" } else { "replace_if/replaced_when_predicate_false/wide_value" },
+                            format!("(32-byte values) after replace_if({:016x}, pred {}) get = {:?}, expected {:?}", key, pred, got, want),
+                        ));
+                    }
+                }
+            }
             if armed {
                 self.stats.evals += 1;
                 self.stats.distinct.push((tm.size.trailing_zeros() as u64) << 8 | st << 4 | 3 | (pred as u64) << 12);
@@ -818,6 +1028,16 @@ impl Exec {
                 let probe = if (h % tm.size) as usize == idx { h } else { idx as u64 };
                 let got = tb.get(probe);
                 let want = if h == probe { Some(v) } else { None };
+                if let Some(tw) = self.eng[c].wide.as_ref() {
+                    let wg = narrow(tw.get(probe), probe);
+                    if wg.map(ex) != want.map(ex) {
+                        return Err(viol(
+                            "C19",
+                            "audit/other_slot_changed/wide_value",
+                            format!("size {} (32-byte values): slot {} should hold ({:016x},{:?}) but get({:016x}) = {:?}", tm.size, idx, h, v, probe, wg),
+                        ));
+                    }
+                }
                 if got.map(ex) != want.map(ex) {
                     return Err(viol(
                         "C19",
